@@ -59,21 +59,6 @@ Proof.
     intros a h Hh. cbv beta in Hh. now rewrite <- app_assoc in Hh.
 Qed.
 
-Definition nonref (v : val) : Prop := forall c, v <> VRef c.
-
-Lemma norefs_list xs : norefs (OList xs) -> forall x, In x xs -> nonref x.
-Proof. intros H x Hx c ->. exact (H c Hx). Qed.
-Lemma norefs_set xs : norefs (OSet xs) -> forall x, In x xs -> nonref x.
-Proof. intros H x Hx c ->. exact (H c Hx). Qed.
-Lemma norefs_dict kvs : norefs (ODict kvs) -> forall p, In p kvs -> nonref (fst p) /\ nonref (snd p).
-Proof.
-  intros H p Hp. split; intros c E; apply (H c); simpl; apply in_or_app; [left|right];
-    apply in_map_iff; exists p; auto.
-Qed.
-
-Lemma nonref_is_ref c v : nonref v -> is_ref c v = false.
-Proof. intro H. destruct v; auto. exfalso. now apply (H l). Qed.
-
 Section DcEq.
   Variable ct : ctable.
 
@@ -338,43 +323,10 @@ Proof.
   intro acc. apply G. reflexivity.
 Qed.
 
-Lemma forallb_ext_in {A} (f g : A -> bool) l : (forall x, In x l -> f x = g x) -> forallb f l = forallb g l.
-Proof. induction l; simpl; auto. intro H. rewrite H, IHl; auto. Qed.
-
 (* a fact about the cells below b *)
 Definition old_fact (b : nat) (F : heap_t -> Prop) : Prop :=
   forall h h', (forall c, c < b -> nth_error h' c = nth_error h c) -> F h -> F h'.
 
-Lemma check_nonref_heap ct f : forall t v h h', nonref v ->
-  check_type f ct h v t = check_type f ct h' v t.
-Proof.
-  induction f as [|f IH]; intros t v h h' Hv; simpl; auto.
-  destruct t; auto.
-  - destruct v; auto; apply IH; auto.
-  - f_equal; auto.
-  - destruct v; auto. exfalso. eapply Hv; reflexivity.
-  - destruct v; auto. exfalso. eapply Hv; reflexivity.
-  - destruct v; auto. exfalso. eapply Hv; reflexivity.
-  - destruct v; auto. exfalso. eapply Hv; reflexivity.
-Qed.
-
-(* a cell with the same reference-free content conforms to the same annotations *)
-Lemma check_same_content ct f : forall t h h' lx l' o,
-  nth_error h lx = Some o -> nth_error h' l' = Some o -> norefs o -> shape o < 3 ->
-  check_type f ct h (VRef lx) t = check_type f ct h' (VRef l') t.
-Proof.
-  induction f as [|f IH]; intros t h h' lx l' o N N' Nr So; simpl; auto.
-  destruct t; auto.
-  - eapply IH; eauto.
-  - f_equal; eapply IH; eauto.
-  - rewrite N, N'. destruct o; auto. apply forallb_ext_in. intros x Hx.
-    apply check_nonref_heap. eapply norefs_list; eauto.
-  - rewrite N, N'. destruct o; auto. apply forallb_ext_in. intros p Hp.
-    destruct (norefs_dict _ Nr p Hp). f_equal; apply check_nonref_heap; auto.
-  - rewrite N, N'. destruct o; auto. apply forallb_ext_in. intros x Hx.
-    apply check_nonref_heap. eapply norefs_set; eauto.
-  - rewrite N, N'. destruct o; auto.
-Qed.
 
 
 Section DcInstance.
